@@ -1,6 +1,7 @@
 package rules
 
 import (
+	"golang.org/x/tools/go/types/typeutil"
 	"fmt"
 	"go/ast"
 	"go/token"
@@ -376,7 +377,6 @@ func c09R3(p *core.Program, r *core.Report, sc *scanClosure) {
 	const rule = "R3"
 	r.Floor(rule, 6)
 	info := sc.f.Info()
-	fragName := "(" + core.G("pkg/gengo/snippet.Snippet") + ").Frag"
 	ast.Inspect(sc.f.Body, func(n ast.Node) bool {
 		// nested closures (helpers that forward fragments to the captured yield) are included
 		c, ok := n.(*ast.CallExpr)
@@ -389,8 +389,8 @@ func c09R3(p *core.Program, r *core.Report, sc *scanClosure) {
 			okArg, how = true, "the cursor rune"
 		} else if v := core.VarOf(info, arg); v != nil {
 			if d, ok := core.SingleDef(info, sc.f.Body, v); ok && d.Kind == "range-key" {
-				if call, isCall := ast.Unparen(d.Rhs).(*ast.CallExpr); isCall && core.CalleeName(info, call) == fragName {
-					okArg, how = true, "a fragment of "+core.ExprStr(call)
+				if isFragSource(p, info, d.Rhs) {
+					okArg, how = true, "a fragment of "+core.ExprStr(d.Rhs)
 				}
 			}
 		}
@@ -1028,7 +1028,7 @@ func c09R7(p *core.Program, r *core.Report) {
 				if !ok {
 					return false
 				}
-				if core.CalleeName(info, c) == fragName {
+				if core.CalleeName(info, c) == fragName || (name != "Fragments" && isFragSource(p, info, c)) {
 					return true
 				}
 				// fn.Frag ranges over f(ctx): the receiver called as a function
@@ -1101,4 +1101,54 @@ func (sc *scanClosure) reachDispatch(d cfgx.Point, bodyEntry *cfgBlock, isAt fun
 			return false
 		},
 	})
+}
+
+// isFragSource: the call produces the fragments of one snippet, verbatim and in order: `s.Frag(ctx)`, or a call of a
+// forwarder — a function of the snippet package whose iterator yields nothing but the range values of
+// `<its Snippet parameter>.Frag(ctx)` (snippet.Fragments is one; R7 decides on its own what a forwarder may skip).
+func isFragSource(p *core.Program, info *types.Info, e ast.Expr) bool {
+	c, ok := ast.Unparen(e).(*ast.CallExpr)
+	if !ok {
+		return false
+	}
+	fragName := "(" + core.G("pkg/gengo/snippet.Snippet") + ").Frag"
+	if core.CalleeName(info, c) == fragName {
+		return true
+	}
+	fn, _ := typeutil.Callee(info, c).(*types.Func)
+	if fn == nil {
+		return false
+	}
+	f := p.FuncOfObj(fn)
+	if f == nil || f.Decl == nil || f.Decl.Recv != nil || core.RelPkg(f.Pkg.PkgPath) != "pkg/gengo/snippet" {
+		return false
+	}
+	it, ys := closureYields(p, f)
+	if it == nil || len(ys) == 0 {
+		return false
+	}
+	finfo := it.Info()
+	params := map[*types.Var]bool{}
+	for _, fl := range f.Decl.Type.Params.List {
+		for _, n := range fl.Names {
+			if v, ok := finfo.ObjectOf(n).(*types.Var); ok && core.NamedTypeName(v.Type()) == core.G("pkg/gengo/snippet.Snippet") {
+				params[v] = true
+			}
+		}
+	}
+	for _, y := range ys {
+		v := core.VarOf(finfo, y.Args[0])
+		if v == nil {
+			return false
+		}
+		d, ok := core.SingleDef(finfo, it.Body, v)
+		if !ok || (d.Kind != "range-key" && d.Kind != "range-value") {
+			return false
+		}
+		fc, ok := ast.Unparen(d.Rhs).(*ast.CallExpr)
+		if !ok || core.CalleeName(finfo, fc) != fragName || !params[core.VarOf(finfo, recvOf(fc))] {
+			return false
+		}
+	}
+	return true
 }
